@@ -156,7 +156,7 @@ def build_witness(w):
         return T.make_graftroot_witness_surrogate(w['seed'], T.Script.from_bytes(w['script'])).bytes
     if k == 'graftap-key':
         if w.get('flag', 0) == 0xff:
-            raise ValueError('ff')
+            raise SkipCase('the key-spend witness builder documents that it refuses flag ff')
         return T.make_graftap_witness_keyspend(w['seed'], dict(f), fl).bytes
     if k == 'graftap-script':
         return T.make_graftap_witness_scriptspend(w['seed'], T.Script.from_bytes(w['script'])).bytes
@@ -168,11 +168,23 @@ def build_witness(w):
     raise ValueError(k)
 
 
+class SkipCase(Exception):
+    pass
+
+
 def evaluate(case):
     fails = []
     lock, wit, fields = case['lock'], case['witness'], case['fields']
-    lb = build_lock(lock)
-    wb = build_witness(wit)
+    try:
+        lb = build_lock(lock)
+        wb = build_witness(wit)
+    except SkipCase as e:
+        raise ValueError(str(e))
+    except BaseException as e:  # noqa
+        if isinstance(e, (KeyboardInterrupt, SystemExit)):
+            raise
+        # every parameter combination the generator draws is inside the documented domain of the builders
+        return [('builders/%s-lock/builder-raises-%s' % (lock['kind'], type(e).__name__), str(e)[:100])], {'expected': None, 'matched': False}
     prog = R.decode(wb)
     pushes = (C['OP_PUSH0'], C['OP_PUSH1'], C['OP_PUSH2'], C['OP_TRUE'], C['OP_FALSE'])
     if not all(n[0] == 'i' and n[1] in pushes for n in prog):
@@ -202,7 +214,7 @@ def check_case(case):
     if case.get('check') != 'pair':
         raise ValueError('check')
     lk = case['lock']
-    if lk['kind'] == 'scripthash' and not 1 <= lk['hs'] <= 64:
+    if lk['kind'] == 'scripthash' and not 1 <= lk['hs'] <= 255:
         raise ValueError('hs')
     if lk['kind'] == 'multisig' and not (1 <= len(lk['pks']) <= 5 and 0 <= lk['m'] <= len(set(lk['pks']))):
         raise ValueError('multisig')
@@ -249,7 +261,7 @@ def pair_case(draw):
         signers = draw(st.permutations(seeds))[:m]
         wit = {'kind': 'multi', 'seeds': list(signers), 'fields': dict(fields), 'flag': flag}
     if lockkind == 'scripthash':
-        lock = {'kind': 'scripthash', 'script': script, 'hs': draw(st.one_of(st.sampled_from([1, 2, 20, 26, 32, 64]), st.integers(1, 64)))}
+        lock = {'kind': 'scripthash', 'script': script, 'hs': draw(st.one_of(st.sampled_from([1, 2, 20, 26, 32, 64, 127, 128, 200, 255]), st.integers(1, 64)))}
     case = {'check': 'pair', 'lock': lock, 'witness': wit, 'fields': fields, 'matched': True, 'perturbation': None}
     plist = ['none', 'none', 'none', 'other-key', 'covered-field', 'excluded-field', 'non-permitted-flag', 'cross', 'cross']
     if lockkind == 'multisig':
